@@ -74,12 +74,39 @@ type MaskKind string
 // DrawMask draws a valid (for m's type) field mask: nil, empty, or 1-4 paths biased to paths populated in one of
 // the given messages; may contain duplicates and parent+child pairs (reported through the returned kind).
 func DrawMask(t *rapid.T, label string, md protoreflect.MessageDescriptor, bias ...proto.Message) (*fieldmaskpb.FieldMask, MaskKind) {
-	k := rapid.IntRange(0, 11).Draw(t, label+".kind")
+	k := rapid.IntRange(0, 13).Draw(t, label+".kind")
 	switch {
 	case k == 0:
 		return nil, "nil"
 	case k == 1:
 		return &fieldmaskpb.FieldMask{}, "empty"
+	case k >= 12:
+		// a mask that names whole top level fields: every field of the type, or exactly the ones populated in one of the
+		// bias messages (so nothing is left out by the projection although a mask is given)
+		var paths []string
+		kind := MaskKind("all-fields")
+		if k == 13 {
+			for _, b := range bias {
+				if b != nil && b.ProtoReflect().IsValid() {
+					paths = PopulatedPaths(b, 1)
+					kind = "all-populated-fields"
+					break
+				}
+			}
+		}
+		if len(paths) == 0 {
+			fields := md.Fields()
+			for i := 0; i < fields.Len(); i++ {
+				paths = append(paths, string(fields.Get(i).Name()))
+			}
+			kind = "all-fields"
+		}
+		if len(paths) > 1 && rapid.Bool().Draw(t, label+".reversed") {
+			for i, j := 0, len(paths)-1; i < j; i, j = i+1, j-1 {
+				paths[i], paths[j] = paths[j], paths[i]
+			}
+		}
+		return &fieldmaskpb.FieldMask{Paths: paths}, kind
 	}
 	all := CachedPaths(md)
 	var pop []string
